@@ -154,4 +154,19 @@ CLAIMS['C07'] = {
     'note': _NOTE,
 }
 
+CLAIMS['C03'] = {
+    'text': 'Kernel robustness: all 13 handlers that can catch an internal signal followed '
+            'along every signal class (re-raise, identity-proved own signal, or named sink); '
+            'life-cycle of every signal creation site (local wake-ups disarmed on every exit, '
+            'scope signals attribute-held and released by _disable_interrupts, task '
+            'cancellations registered before scheduling and revoked by the wrapper); '
+            'subscribe/unsubscribe agreement per notification class with helpers inlined; '
+            'revoked activations skipped and the flag plumbing of Activation/Interrupt/'
+            'Loop.schedule; immediacy <=> truth (no spin); schedule precondition (C01/L3); '
+            'forced-close discipline and the sound not-started predicate. Absence of livelock '
+            'for arbitrary programs needs a ranking argument over run-time state and is not '
+            'decided.',
+    'note': _NOTE,
+}
+
 NOT_APPLICABLE = {}
